@@ -30,7 +30,7 @@ var Rules = []report.Rule{
 	{ID: "V22", Floor: 30, Props: []string{"C20", "C15", "C02"}, Text: "(regenerated modifier-mode corpus) every argument expression of the directive is passed at the call site with its source text and order, through a helper that returns its parameters unchanged, and is bound once in the generated function's prologue to the name its source position determines; no option's parameter is ignored"},
 	{ID: "V15", Floor: 2, Props: []string{"C13"}, Text: "(regenerated corpora) every generated package type-checks without the cff tag, and no call of a code-generation directive remains in it"},
 	{ID: "V23", Floor: 3, Props: []string{"C13", "C14"}, Text: "(regenerated corpora) cff succeeds on every corpus: every corpus flow is well-formed by construction, so a diagnostic is a wrongly rejected flow and a crash is a crash"},
-	{ID: "V25", Floor: 15, Props: []string{"C14", "C13"}, Text: "(reject corpus) every program of the corpus - a flow ill-formed in one way (no provider, a type provided twice by tasks or by Params, a cycle through tasks or through a predicate, an unused parameter or output, an output-less task without Invoke, a Slice/Map whose elements are not assignable to the function's parameters; a predicate without provider or with the wrong signature, FallbackWith with the wrong count or on a task that cannot fail, Invoke on a task with results, Instrument without an emitter, a Parallel option in a Flow, SliceEnd with ContinueOnError) or a type-correct spelling cff cannot expand (the findings F7, F10-F13, F15-F17) - is refused: cff exits non-zero, prints a diagnostic positioned in that package, and writes no output file into it"},
+	{ID: "V25", Floor: 15, Props: []string{"C14", "C13"}, Text: "(reject corpus) every program of the corpus - a flow ill-formed in one way (no provider, a type provided twice by tasks or by Params, a cycle through tasks or through a predicate, an unused parameter or output, an output-less task without Invoke, a Slice/Map whose elements are not assignable to the function's parameters; a predicate without provider or with the wrong signature, FallbackWith with the wrong count or on a task that cannot fail, Invoke on a task with results, Instrument without an emitter, a Parallel option in a Flow, SliceEnd with ContinueOnError) or a type-correct spelling cff cannot expand (the findings F7, F10-F13, F15-F17, F20; an option held in a variable or produced by a call that is not a cff function) - is refused: cff exits non-zero, prints a diagnostic positioned in that package, and writes no output file into it"},
 	{ID: "V19", Floor: 4, Props: []string{"C16"}, Text: "(regenerated corpora) every top-level declaration of the source file re-appears in the generated file, textually identical (go/printer, whitespace-normalised) except at the directive call sites; every source import is kept"},
 	{ID: "V21", Floor: 6, Props: []string{"C16"}, Text: "(regenerated corpora) for every assignment of the tags occurring in a file's //go:build and // +build lines, the generated file is selected exactly when the source file is selected with the cff tag flipped"},
 	{ID: "V20", Floor: 4, Props: []string{"C20"}, Text: "(regenerated corpora) base-mode and source-map-mode outputs of the same file are the same token stream once comments (incl. line directives) are dropped"},
